@@ -9,6 +9,9 @@ CONSTANTS
   FixZeroHashState = TRUE
   FixLegacyZeroWriteLog = TRUE
   LubZeroShortcut = TRUE
+  NVar = 2
+  Scenarios = {"base"}
+  Leave = {}
   WithPreConfirmed = FALSE
 INIT Init
 NEXT Next
